@@ -8,6 +8,7 @@ import (
 	"fmt"
 	"math/big"
 	"os"
+	"strings"
 
 	"github.com/cloudflare/circl/oprf"
 	"github.com/cloudflare/pat-go/ecdsa"
@@ -143,6 +144,22 @@ func newVerdictWorld(c *ctx, kind string, hid int) *verdictWorld {
 			v := v
 			w.present[name] = func() (bool, string) {
 				_, _, err := x.w.issuer.Evaluate(append([]byte{}, v...))
+				return err == nil, ""
+			}
+		}
+	case "rlorigins":
+		x := newRLWorld(c)
+		names := map[string]string{"reg": x.origin, "long": rlLongOrigin, "prefix32": rlLongOrigin[:32], "dot": x.origin + ".",
+			"upper": strings.ToUpper(x.origin), "nul": x.origin + "\x00.attacker.example", "other": "unrelated.example"}
+		for name, origin := range names {
+			st, err := type3.NewRateLimitedClientFromSecret(x.secret).CreateTokenRequest(randBytes(r, 9), randNonce(r), randScalar(r),
+				x.w.issuer.TokenKeyID(), x.w.issuer.TokenKey(), origin, x.w.issuer.NameKey())
+			if err != nil {
+				panic(err)
+			}
+			enc := append([]byte{}, st.Request().Marshal()...)
+			w.present[name] = func() (bool, string) {
+				_, _, err := x.w.issuer.Evaluate(append([]byte{}, enc...))
 				return err == nil, ""
 			}
 		}
